@@ -5,6 +5,7 @@ package main
 import (
 	"fmt"
 	"go/types"
+	"strings"
 
 	"golang.org/x/tools/go/ssa"
 )
@@ -26,10 +27,50 @@ func (f *Frame) loopScope(st *State, li *loopInfo) *Scope {
 	return sc
 }
 
+// rangeIndexInv recognises the lowering of `for i := range slice` and returns
+// the built-in inductive invariant  -1 <= rangeindex <= bound-1  as a function
+// of the state (nil if the loop has another shape).
+func (f *Frame) rangeIndexInv(b *ssa.BasicBlock) func(st *State) Term {
+	if b.Comment != "rangeindex.loop" {
+		return nil
+	}
+	var cell *ssa.Alloc
+	var bound ssa.Value
+	for _, in := range b.Instrs {
+		switch x := in.(type) {
+		case *ssa.Store:
+			if a, ok := x.Addr.(*ssa.Alloc); ok && a.Comment == "rangeindex" {
+				cell = a
+			}
+		case *ssa.BinOp:
+			bound = x.Y
+		}
+	}
+	if cell == nil || bound == nil || !f.scalarLocal(cell) {
+		return nil
+	}
+	if _, ok := f.regs[bound]; !ok {
+		if _, isConst := bound.(*ssa.Const); !isConst {
+			return nil
+		}
+	}
+	return func(st *State) Term {
+		ri, ok := st.locals[cellKey{f, cell}]
+		if !ok {
+			return True
+		}
+		return And(Le(IntLit(-1), ri), Le(ri, Sub(f.val(bound).T, IntLit(1))))
+	}
+}
+
 func (f *Frame) enterLoop(st *State, b *ssa.BasicBlock, li *loopInfo) *State {
 	vc := f.vc
 	li.pre = st.clone()
 	spec := f.loopSpec(li)
+	li.auto = f.rangeIndexInv(b)
+	if li.auto != nil {
+		vc.oblige(st, "inv-init", fmt.Sprintf("loop%d.rangeindex", li.ordinal), li.auto(st), nil, "built-in range-index invariant holds on entry", b.Instrs[0].Pos())
+	}
 	if !f.top {
 		vc.unsupported("loop inside inlined function %s", f.fn.Name())
 	}
@@ -71,7 +112,18 @@ func (f *Frame) enterLoop(st *State, b *ssa.BasicBlock, li *loopInfo) *State {
 	ntop := vc.freshConst("lp.top", SInt)
 	vc.assumeIn(h, Le(st.top, ntop))
 	h.top = ntop
+	for _, hn := range sortedKeys(h.heaps) {
+		if strings.HasPrefix(hn, "A_") && strings.HasPrefix(h.heaps[hn].S, "lp.") {
+			vc.aliveBound(h.heaps[hn], ntop)
+		}
+		if strings.HasPrefix(hn, "Mv_") && strings.HasPrefix(h.heaps[hn].S, "lp.") {
+			vc.mapWF(h, hn)
+		}
+	}
 	// 3. assume invariants
+	if li.auto != nil {
+		vc.assumeIn(h, li.auto(h))
+	}
 	if spec != nil {
 		for _, inv := range spec.Invariants {
 			sc := f.loopScope(h, li)
@@ -97,6 +149,11 @@ func (f *Frame) closeLoop(st *State, cond Term, to *ssa.BasicBlock) {
 	vc := f.vc
 	li := f.loops[to]
 	spec := f.loopSpec(li)
+	if li.auto != nil {
+		e0 := st.clone()
+		e0.pc = cond
+		vc.oblige(e0, "inv-keep", fmt.Sprintf("loop%d.rangeindex", li.ordinal), li.auto(e0), nil, "built-in range-index invariant preserved", to.Instrs[0].Pos())
+	}
 	if spec == nil {
 		return
 	}
